@@ -326,6 +326,12 @@ func AccessPath(v ssa.Value) string {
 		return AccessPath(x.X)
 	case *ssa.ChangeType:
 		return AccessPath(x.X)
+	case *ssa.MakeInterface:
+		return AccessPath(x.X)
+	case *ssa.TypeAssert:
+		return AccessPath(x.X) + ".(" + types.TypeString(x.AssertedType, func(p *types.Package) string { return p.Name() }) + ")"
+	case *ssa.Lookup:
+		return AccessPath(x.X) + "[" + AccessPath(x.Index) + "]"
 	case *ssa.BinOp:
 		if x.Op == token.ADD {
 			var parts []string
